@@ -327,7 +327,7 @@ def lifecycle_cases(requests=('incr', 'decr', 'set', 'restart', 'reload',
                     children=0, max_ops=30, statuses_full=False,
                     extra_watcher_opts=None, kill_cmd=False, signal_cmd=False,
                     respawn_false=False, rm=False, quit=False,
-                    set_other=False, config=False):
+                    set_other=False, config=False, job_control=False):
     """General history generator shared by several properties."""
     from hypothesis import strategies as st
 
@@ -440,7 +440,9 @@ def lifecycle_cases(requests=('incr', 'decr', 'set', 'restart', 'reload',
                                                          0.0, 1.5])}))))
         if signal_cmd:
             pool.append(req('signal', st.fixed_dictionaries(
-                {"name": name, "signum": st.sampled_from([15, 1, 10, 9])})))
+                {"name": name, "signum": st.sampled_from(
+                    [15, 1, 10, 9, 19, 19, 18] if job_control
+                    else [15, 1, 10, 9])})))
         if rm:
             pool.append(req('rm', ww(st.fixed_dictionaries(
                 {"name": name}, optional={"nostop": st.booleans()}))))
